@@ -1,3 +1,443 @@
 package main
 
-func extractRest14(l *loaded, genDir, jsonDir string) error { return nil }
+import (
+	"fmt"
+	"go/ast"
+	"go/printer"
+	"go/token"
+	"path/filepath"
+	"sort"
+	"strings"
+)
+
+// extractRest14: structural facts about loops and pools.
+//
+//  1. Every `for` loop of pkg/sql/parser that is not a range loop or a counted loop, classified by how it is left when
+//     the tokens run out (the current token stays the end marker, or the stale last token, for ever):
+//     "positive" — the condition is a conjunction/disjunction of token tests without negation (no test is satisfied by
+//     the end marker, so the loop is left there); "eof" — the condition tests the end marker or the token index;
+//     "guarded" — an unconditional or negated loop whose body either calls a fallible parse function and returns its
+//     error, or leaves the loop (break/return) in the else/negated branch of a token test. Anything else is "open":
+//     a loop that can spin on the end marker. Each loop must also consume or fail: its body calls advance(), a parse*
+//     / expect* method, or leaves.
+//  2. PutExpression & co.: a node returned to a pool goes to the pool its Get function draws that type from.
+//  3. Children() methods never take the address of a range variable (every child would alias the last element under
+//     the go 1.21 loop semantics the module declares).
+func extractRest14(l *loaded, genDir, jsonDir string) error {
+	type loop struct {
+		Where string `json:"where"`
+		Class string `json:"class"`
+		Moves bool   `json:"moves"`
+		Words []string `json:"words,omitempty"` // for a loop that fails the criterion: the words its function tests for (search hints)
+	}
+	var loops []loop
+	pp := l.pkgs["pkg/sql/parser"]
+	if pp == nil {
+		return fmt.Errorf("pkg/sql/parser not loaded")
+	}
+	src := func(n ast.Node) string { return nodeText(l.fset, n) }
+	isTokenTest := func(e ast.Expr) bool {
+		call, ok := e.(*ast.CallExpr)
+		if !ok {
+			return false
+		}
+		sel, ok := call.Fun.(*ast.SelectorExpr)
+		if !ok {
+			return false
+		}
+		n := sel.Sel.Name
+		return strings.HasPrefix(n, "is") || strings.HasPrefix(n, "peekIs") || strings.HasPrefix(n, "match")
+	}
+	var positive func(e ast.Expr) bool
+	positive = func(e ast.Expr) bool {
+		switch x := e.(type) {
+		case *ast.ParenExpr:
+			return positive(x.X)
+		case *ast.BinaryExpr:
+			if x.Op == token.LOR || x.Op == token.LAND {
+				return positive(x.X) && positive(x.Y)
+			}
+			return false
+		case *ast.CallExpr:
+			return isTokenTest(x) && !strings.Contains(src(x), "TokenTypeEOF")
+		}
+		return false
+	}
+	var negOnly func(e ast.Expr) bool // a conjunction of negated token tests: true exactly when the token is none of those expected
+	negOnly = func(e ast.Expr) bool {
+		switch x := e.(type) {
+		case *ast.ParenExpr:
+			return negOnly(x.X)
+		case *ast.BinaryExpr:
+			return x.Op == token.LAND && negOnly(x.X) && negOnly(x.Y)
+		case *ast.UnaryExpr:
+			return x.Op == token.NOT && isTokenTest(x.X)
+		}
+		return false
+	}
+	var hasPositive func(e ast.Expr) bool // a token test somewhere in the condition, not under a negation
+	hasPositive = func(e ast.Expr) bool {
+		switch x := e.(type) {
+		case *ast.ParenExpr:
+			return hasPositive(x.X)
+		case *ast.BinaryExpr:
+			return hasPositive(x.X) || hasPositive(x.Y)
+		case *ast.CallExpr:
+			return isTokenTest(x)
+		}
+		return false
+	}
+	leaves := func(b *ast.BlockStmt) bool {
+		found := false
+		ast.Inspect(b, func(n ast.Node) bool {
+			switch x := n.(type) {
+			case *ast.FuncLit, *ast.ForStmt, *ast.RangeStmt:
+				return false
+			case *ast.BranchStmt:
+				if x.Tok == token.BREAK {
+					found = true
+				}
+			case *ast.ReturnStmt:
+				found = true
+			}
+			return true
+		})
+		return found
+	}
+	for _, f := range pp.Syntax {
+		fname := filepath.Base(l.fset.Position(f.Pos()).Filename)
+		if strings.HasSuffix(fname, "_test.go") || strings.HasPrefix(fname, "verif_") {
+			continue
+		}
+		for _, d := range f.Decls {
+			fd, ok := d.(*ast.FuncDecl)
+			if !ok || fd.Body == nil {
+				continue
+			}
+			ast.Inspect(fd.Body, func(n ast.Node) bool {
+				fs, ok := n.(*ast.ForStmt)
+				if !ok {
+					return true
+				}
+				if fs.Init != nil || fs.Post != nil {
+					return true // counted loop
+				}
+				cond := ""
+				if fs.Cond != nil {
+					cond = src(fs.Cond)
+				}
+				if fs.Cond != nil && !strings.Contains(cond, "p.") {
+					return true // not a loop over the token stream
+				}
+				if fs.Cond == nil && !strings.Contains(src(fs.Body), "p.") {
+					return true // a walk over a tree or a slice, no parser state involved
+				}
+				class := "open"
+				switch {
+				case fs.Cond != nil && positive(fs.Cond):
+					class = "positive"
+				case fs.Cond != nil && (strings.Contains(cond, "TokenTypeEOF") || strings.Contains(cond, "currentPos <")):
+					class = "eof"
+				default:
+					// unconditional or negated: look for the two guarded shapes in the body
+					guarded := false
+					ast.Inspect(fs.Body, func(m ast.Node) bool {
+						switch x := m.(type) {
+						case *ast.FuncLit:
+							return false
+						case *ast.IfStmt:
+							c := src(x.Cond)
+							// a fallible call whose error leaves the function
+							if strings.Contains(c, "err != nil") && leaves(x.Body) {
+								guarded = true
+							}
+							// leaving in the else branch of a positive token test / in the then branch of a negated one
+							if hasPositive(x.Cond) {
+								if blk, ok := x.Else.(*ast.BlockStmt); ok && leaves(blk) && !strings.Contains(c, "!") {
+									guarded = true
+								}
+								if strings.HasPrefix(strings.TrimSpace(c), "!") && !strings.Contains(c, "||") && leaves(x.Body) {
+									guarded = true
+								}
+							}
+							if strings.Contains(c, "TokenTypeEOF") && leaves(x.Body) {
+								guarded = true
+							}
+							// "none of the expected tokens here": leaves
+							if negOnly(x.Cond) && leaves(x.Body) {
+								guarded = true
+							}
+						}
+						return true
+					})
+					// a body that ends by leaving: the loop goes round only through `continue`, and every `continue` sits
+					// under a positive token test
+					if n := len(fs.Body.List); n > 0 {
+						last := fs.Body.List[n-1]
+						endsLeaving := false
+						if br, ok := last.(*ast.BranchStmt); ok && br.Tok == token.BREAK {
+							endsLeaving = true
+						}
+						if _, ok := last.(*ast.ReturnStmt); ok {
+							endsLeaving = true
+						}
+						if endsLeaving {
+							allUnderTest := true
+							var walk func(n ast.Node, under bool)
+							walk = func(n ast.Node, under bool) {
+								switch x := n.(type) {
+								case nil:
+								case *ast.BlockStmt:
+									for _, st := range x.List {
+										walk(st, under)
+									}
+								case *ast.IfStmt:
+									u := under || (hasPositive(x.Cond) && !strings.Contains(src(x.Cond), "!"))
+									walk(x.Body, u)
+									if x.Else != nil {
+										walk(x.Else, under)
+									}
+								case *ast.BranchStmt:
+									if x.Tok == token.CONTINUE && !under {
+										allUnderTest = false
+									}
+								case *ast.SwitchStmt, *ast.TypeSwitchStmt, *ast.SelectStmt:
+									ast.Inspect(x, func(m ast.Node) bool {
+										if b, ok := m.(*ast.BranchStmt); ok && b.Tok == token.CONTINUE {
+											allUnderTest = false
+										}
+										return true
+									})
+								}
+							}
+							walk(fs.Body, false)
+							if allUnderTest {
+								guarded = true
+							}
+						}
+					}
+					if guarded {
+						class = "guarded"
+					}
+				}
+				moves := false
+				ast.Inspect(fs.Body, func(m ast.Node) bool {
+					if call, ok := m.(*ast.CallExpr); ok {
+						if sel, ok := call.Fun.(*ast.SelectorExpr); ok {
+							n := sel.Sel.Name
+							if n == "advance" || strings.HasPrefix(n, "parse") || strings.HasPrefix(n, "expect") || strings.HasPrefix(n, "consume") || strings.HasPrefix(n, "skip") || n == "synchronize" {
+								moves = true
+							}
+						}
+					}
+					return true
+				})
+				if leaves(fs.Body) && fs.Cond == nil {
+					moves = moves || true
+				}
+				pos := l.fset.Position(fs.Pos())
+				var words []string
+				if class == "open" || !moves {
+					seen := map[string]bool{}
+					ast.Inspect(fd.Body, func(m ast.Node) bool {
+						switch x := m.(type) {
+						case *ast.BasicLit:
+							if x.Kind == token.STRING {
+								w := strings.Trim(x.Value, "\"`")
+								if len(w) >= 2 && len(w) <= 24 && w == strings.ToUpper(w) && strings.IndexFunc(w, func(r rune) bool { return !(r >= 'A' && r <= 'Z' || r == '_' || r == ' ') }) < 0 {
+									seen[w] = true
+								}
+							}
+						case *ast.SelectorExpr:
+							if strings.HasPrefix(x.Sel.Name, "TokenType") {
+								seen[strings.ToUpper(strings.TrimPrefix(x.Sel.Name, "TokenType"))] = true
+							}
+						}
+						return true
+					})
+					for w := range seen {
+						words = append(words, w)
+					}
+					sort.Strings(words)
+				}
+				loops = append(loops, loop{fmt.Sprintf("%s:%s:%d", fname, fd.Name.Name, pos.Line), class, moves, words})
+				return true
+			})
+		}
+	}
+	sort.Slice(loops, func(i, j int) bool { return loops[i].Where < loops[j].Where })
+
+	// 2. pools: type switch cases of the Put* functions of pkg/sql/ast/pool.go: which pool variable receives the node,
+	// and which pool variable the Get function of that type reads
+	type poolUse struct {
+		Type string `json:"type"`
+		Put  string `json:"put_pool"`
+		Get  string `json:"get_pool"`
+		In   string `json:"in"`
+	}
+	var pools []poolUse
+	pa := l.pkgs["pkg/sql/ast"]
+	if pa == nil {
+		return fmt.Errorf("pkg/sql/ast not loaded")
+	}
+	getPool := map[string]string{} // node type -> pool variable its Get<Type>() reads
+	for _, f := range pa.Syntax {
+		for _, d := range f.Decls {
+			fd, ok := d.(*ast.FuncDecl)
+			if !ok || fd.Body == nil || fd.Recv != nil || !strings.HasPrefix(fd.Name.Name, "Get") {
+				continue
+			}
+			ast.Inspect(fd.Body, func(n ast.Node) bool {
+				ta, ok := n.(*ast.TypeAssertExpr)
+				if !ok || ta.Type == nil {
+					return true
+				}
+				call, ok := ta.X.(*ast.CallExpr)
+				if !ok {
+					return true
+				}
+				sel, ok := call.Fun.(*ast.SelectorExpr)
+				if !ok || sel.Sel.Name != "Get" {
+					return true
+				}
+				ty := strings.TrimPrefix(src(ta.Type), "*")
+				getPool[ty] = src(sel.X)
+				return true
+			})
+		}
+	}
+	for _, f := range pa.Syntax {
+		for _, d := range f.Decls {
+			fd, ok := d.(*ast.FuncDecl)
+			if !ok || fd.Body == nil || fd.Recv != nil || !(strings.HasPrefix(fd.Name.Name, "Put") || strings.HasPrefix(fd.Name.Name, "put") || strings.HasPrefix(fd.Name.Name, "release")) {
+				continue
+			}
+			// (a) Put<T>(x *T): every <pool>.Put(x) in the body
+			paramType := map[string]string{}
+			for _, p := range fd.Type.Params.List {
+				for _, nm := range p.Names {
+					paramType[nm.Name] = strings.TrimPrefix(src(p.Type), "*")
+				}
+			}
+			ast.Inspect(fd.Body, func(n ast.Node) bool {
+				switch x := n.(type) {
+				case *ast.TypeSwitchStmt:
+					for _, cl := range x.Body.List {
+						cc := cl.(*ast.CaseClause)
+						if len(cc.List) != 1 {
+							continue
+						}
+						ty := strings.TrimPrefix(src(cc.List[0]), "*")
+						for _, st := range cc.Body {
+							ast.Inspect(st, func(m ast.Node) bool {
+								if call, ok := m.(*ast.CallExpr); ok {
+									if sel, ok := call.Fun.(*ast.SelectorExpr); ok && sel.Sel.Name == "Put" && strings.HasSuffix(src(sel.X), "Pool") {
+										pools = append(pools, poolUse{ty, src(sel.X), getPool[ty], fd.Name.Name})
+									}
+								}
+								return true
+							})
+						}
+					}
+					return false
+				case *ast.CallExpr:
+					if sel, ok := x.Fun.(*ast.SelectorExpr); ok && sel.Sel.Name == "Put" && strings.HasSuffix(src(sel.X), "Pool") && len(x.Args) == 1 {
+						if id, ok := x.Args[0].(*ast.Ident); ok {
+							if ty, ok := paramType[id.Name]; ok {
+								pools = append(pools, poolUse{ty, src(sel.X), getPool[ty], fd.Name.Name})
+							}
+						}
+					}
+				}
+				return true
+			})
+		}
+	}
+	sort.Slice(pools, func(i, j int) bool { return pools[i].In+pools[i].Type < pools[j].In+pools[j].Type })
+
+	// 3. &rangeVar inside Children()
+	var rangeAddr []string
+	for _, f := range pa.Syntax {
+		for _, d := range f.Decls {
+			fd, ok := d.(*ast.FuncDecl)
+			if !ok || fd.Body == nil || fd.Name.Name != "Children" {
+				continue
+			}
+			ast.Inspect(fd.Body, func(n ast.Node) bool {
+				rs, ok := n.(*ast.RangeStmt)
+				if !ok {
+					return true
+				}
+				vars := map[string]bool{}
+				for _, e := range []ast.Expr{rs.Key, rs.Value} {
+					if id, ok := e.(*ast.Ident); ok && id.Name != "_" {
+						vars[id.Name] = true
+					}
+				}
+				shadowed := map[string]bool{}
+				ast.Inspect(rs.Body, func(m ast.Node) bool {
+					switch x := m.(type) {
+					case *ast.AssignStmt:
+						if x.Tok == token.DEFINE {
+							for i, lhs := range x.Lhs {
+								if id, ok := lhs.(*ast.Ident); ok && vars[id.Name] && i < len(x.Rhs) {
+									if rid, ok := x.Rhs[i].(*ast.Ident); ok && rid.Name == id.Name {
+										shadowed[id.Name] = true // x := x : a fresh copy per iteration
+									}
+								}
+							}
+						}
+					case *ast.UnaryExpr:
+						if x.Op == token.AND {
+							if id, ok := x.X.(*ast.Ident); ok && vars[id.Name] && !shadowed[id.Name] {
+								recv := ""
+								if fd.Recv != nil && len(fd.Recv.List) > 0 {
+									recv = strings.TrimPrefix(src(fd.Recv.List[0].Type), "*")
+								}
+								rangeAddr = append(rangeAddr, fmt.Sprintf("%s.Children:%d:&%s", recv, l.fset.Position(x.Pos()).Line, id.Name))
+							}
+						}
+					}
+					return true
+				})
+				return true
+			})
+		}
+	}
+	sort.Strings(rangeAddr)
+	if err := writeJSON(jsonDir+"/structure.json", map[string]any{"parser_loops": loops, "pool_puts": pools, "children_range_addr": rangeAddr}); err != nil {
+		return err
+	}
+	var b strings.Builder
+	b.WriteString(genHeader)
+	b.WriteString("namespace GoSQLXModel.Gen.Structure\n\n/-- loops of pkg/sql/parser over the token stream: (where, class, consumes-or-leaves) -/\ndef parserLoops : List (String × String × Bool) := [")
+	for i, e := range loops {
+		if i > 0 {
+			b.WriteString(",\n  ")
+		}
+		fmt.Fprintf(&b, "(%s, %s, %v)", leanStr(e.Where), leanStr(e.Class), e.Moves)
+	}
+	b.WriteString("]\n\n/-- pool returns of pkg/sql/ast: (function, node type, pool it is put into, pool its Get draws from) -/\ndef poolPuts : List (String × String × String × String) := [")
+	for i, e := range pools {
+		if i > 0 {
+			b.WriteString(",\n  ")
+		}
+		fmt.Fprintf(&b, "(%s, %s, %s, %s)", leanStr(e.In), leanStr(e.Type), leanStr(e.Put), leanStr(e.Get))
+	}
+	b.WriteString("]\n\n/-- addresses of range variables taken inside Children() methods -/\ndef childrenRangeAddr : List String := [")
+	for i, e := range rangeAddr {
+		if i > 0 {
+			b.WriteString(", ")
+		}
+		b.WriteString(leanStr(e))
+	}
+	b.WriteString("]\n\nend GoSQLXModel.Gen.Structure\n")
+	_, err := writeIfChanged(filepath.Join(genDir, "Structure.lean"), []byte(b.String()))
+	return err
+}
+
+func nodeText(fset *token.FileSet, n ast.Node) string {
+	var b strings.Builder
+	_ = printer.Fprint(&b, fset, n)
+	return b.String()
+}
